@@ -299,6 +299,7 @@ type L2Client struct {
 	eof  atomic.Bool
 	done chan struct{}
 	noRd atomic.Bool // stalled: the reader stops reading
+	bursts gosync.WaitGroup
 }
 
 func (l *L2) Dial(id int) (*L2Client, error) {
